@@ -1,7 +1,266 @@
 package main
 
-import "strings"
+import (
+	"fmt"
+	"go/ast"
+	"sort"
+	"strings"
+)
+
+// pairKey: (pilosa struct, internal struct, "one"|"list") of a codec function
+func pairKey(fi *finfo) (string, bool) {
+	stripS := func(t *gtype) (*gtype, string) {
+		if t.kind == "slice" {
+			return elemOf(t), "list"
+		}
+		if t.kind == "ptr" {
+			return t.elem, "one"
+		}
+		return t, "one"
+	}
+	var pt, it *gtype
+	var shape string
+	switch {
+	case fi.kind == "dec" && fi.inout >= 0:
+		pt, shape = stripS(fi.sig.params[1].typ)
+		it, _ = stripS(fi.sig.params[0].typ)
+	case fi.kind == "dec" && fi.filler:
+		pt, shape = stripS(fi.sig.params[1].typ)
+		it, _ = stripS(fi.sig.params[0].typ)
+	case fi.kind == "dec":
+		if len(fi.sig.results) == 0 || len(fi.sig.params) != 1 {
+			return "", false
+		}
+		pt, shape = stripS(fi.sig.results[0])
+		it, _ = stripS(fi.sig.params[0].typ)
+	case fi.kind == "enc":
+		if len(fi.sig.results) == 0 || len(fi.sig.params) != 1 {
+			return "", false
+		}
+		pt, shape = stripS(fi.sig.params[0].typ)
+		it, _ = stripS(fi.sig.results[0])
+	}
+	if pt == nil || it == nil || pt.kind != "struct" || it.kind != "struct" {
+		return "", false
+	}
+	return pt.name + "|" + it.name + "|" + shape, true
+}
+
+// assignedFields: the fields of *m an in-place decoder assigns
+func assignedFields(fd *ast.FuncDecl, m string) map[string]bool {
+	out := map[string]bool{}
+	ast.Inspect(fd.Body, func(n ast.Node) bool {
+		switch s := n.(type) {
+		case *ast.AssignStmt:
+			for _, l := range s.Lhs {
+				if sel, ok := l.(*ast.SelectorExpr); ok && src(sel.X) == m {
+					out[sel.Sel.Name] = true
+				}
+			}
+		case *ast.CallExpr:
+			for _, a := range s.Args {
+				if u, ok := a.(*ast.UnaryExpr); ok {
+					if sel, ok := u.X.(*ast.SelectorExpr); ok && src(sel.X) == m {
+						out[sel.Sel.Name] = true
+					}
+				}
+			}
+		}
+		return true
+	})
+	return out
+}
+
+type thmInfo struct {
+	rt    string // name of the round-trip lemma(s) usable by callers
+	total string
+	nArgs int // explicit arguments of the no-panic lemma
+}
 
 func emitTheoremsImpl(sb *strings.Builder, fns map[string]*leanFn, order []string) {
-	_ = strings.Join
+	sb.WriteString("/-! ## Round-trip and no-panic theorems of every codec pair (generated proof scripts) -/\n\n")
+	// encoders by pair key
+	encBy := map[string]*finfo{}
+	for _, fi := range fnInfo {
+		if fi.kind == "enc" {
+			if k, ok := pairKey(fi); ok {
+				encBy[k] = fi
+			}
+		}
+	}
+	thms := map[string]*thmInfo{} // by decoder name
+	// hand-modelled lemmas (Hand.lean)
+	thms["decodeAttrs"] = &thmInfo{rt: "rt_decodeAttrs", total: "total_decodeAttrs", nArgs: 1}
+	thms["decodeRow"] = &thmInfo{rt: "rt_decodeRow", total: "total_decodeRow", nArgs: 1}
+	thms["decodeFieldStatus"] = &thmInfo{rt: "rt_decodeFieldStatus", total: "total_decodeFieldStatus", nArgs: 2}
+	thms["decodeImportRoaringRequest"] = &thmInfo{rt: "rt_decodeImportRoaringRequest", total: "total_decodeImportRoaringRequest", nArgs: 2}
+
+	var hookNames []string
+	for h := range hooks {
+		hookNames = append(hookNames, "hook_"+h)
+	}
+	sort.Strings(hookNames)
+	hookList := strings.Join(hookNames, ", ")
+
+	for _, name := range order {
+		fi := fnInfo[name]
+		if fi.kind != "dec" {
+			continue
+		}
+		lf := fns[name]
+		fd := funcs[name]
+		// lemmas of the decoders this one calls
+		var subRT, subTotal []string
+		for _, d := range lf.deps {
+			if t, ok := thms[d]; ok {
+				if t.rt != "" {
+					subRT = append(subRT, strings.Fields(t.rt)...)
+				}
+				if t.total != "" {
+					subTotal = append(subTotal, t.total+strings.Repeat(" _", t.nArgs))
+				}
+			}
+		}
+		ti := &thmInfo{}
+		thms[name] = ti
+
+		// ---------- no-panic
+		binders, matchOn := paramDecls(fi)
+		var args []string
+		for i, p := range fi.sig.params {
+			if fi.filler && i == 1 {
+				continue
+			}
+			n := p.name
+			if n == "_" {
+				n = fmt.Sprintf("_p%d", i)
+			}
+			args = append(args, n)
+		}
+		var alts []string
+		for _, t := range subTotal {
+			alts = append(alts, "exact "+t)
+		}
+		altS := ""
+		if len(alts) > 0 {
+			altS = strings.Join(alts, " | ") + " | "
+		}
+		steps := "repeat (first | " + altS + "exact noPanic_pure _ | exact noPanic_ok _ | exact noPanic_throw_err _ | exact noPanic_err _ | apply noPanic_mapM | apply noPanic_bind | intro _ | split)"
+		ti.total = "total_" + name
+		ti.nArgs = len(args)
+		if matchOn != "" && fi.guarded {
+			fmt.Fprintf(sb, "theorem total_%s %s : NoPanic (%s %s) := by\n  cases %s with\n  | none => simp [%s, NoPanic, Outcome.isPanic]\n  | some %s =>\n    simp only [%s]\n    %s\n\n",
+				name, binders, name, strings.Join(args, " "), matchOn, name, matchOn, name, steps)
+		} else if matchOn != "" {
+			// unguarded: the wire message itself / an element of a repeated field is never nil
+			b2 := strings.Replace(binders, "("+matchOn+" : (Option ", "("+matchOn+" : (", 1)
+			a2 := append([]string{}, args...)
+			a2[0] = "(some " + matchOn + ")"
+			fmt.Fprintf(sb, "theorem total_%s %s : NoPanic (%s %s) := by\n  simp only [%s]\n  %s\n\n",
+				name, b2, name, strings.Join(a2, " "), name, steps)
+		} else {
+			fmt.Fprintf(sb, "theorem total_%s %s : NoPanic (%s %s) := by\n  simp only [%s]\n  %s\n\n",
+				name, binders, name, strings.Join(args, " "), name, steps)
+		}
+
+		// ---------- round trip
+		if name == "decodeQueryResult" || name == "decodeQueryResults" || name == "decodeQueryResponse" {
+			continue // stated and proved in Props.lean (the encoder is monadic: `default: panic`)
+		}
+		k, ok := pairKey(fi)
+		if !ok {
+			continue
+		}
+		enc, ok := encBy[k]
+		if !ok {
+			die("decoder %s has no encoder for %s", name, k)
+		}
+		parts := strings.Split(k, "|")
+		pt := parts[0]
+		simpSet := []string{name, enc.name, "canon_" + pt}
+		simpSet = append(simpSet, subRT...)
+		if hooks[pt] {
+			simpSet = append(simpSet, "hook_"+pt)
+		}
+		_ = hookList
+		// canonical forms of the struct types of the fields (element structs built inline)
+		for _, f := range resolveStruct("P", pt).fields {
+			t := f.typ
+			for t.kind == "ptr" || t.kind == "slice" {
+				t = t.elem
+			}
+			if t.kind == "struct" && t.side == "P" && !handTypes[t.String()] {
+				simpSet = append(simpSet, "canon_"+t.name)
+				if hooks[t.name] {
+					simpSet = append(simpSet, "hook_"+t.name)
+				}
+			}
+		}
+		ss := strings.Join(simpSet, ", ")
+		ti.rt = "rt_" + name
+		switch {
+		case parts[2] == "list":
+			el := "rt_elem"
+			_ = el
+			fmt.Fprintf(sb, "theorem rt_%s (vs : List P.%s) : %s (%s vs) = .ok (vs.map (canon_%s true)) := by\n  simp only [%s, %s]\n  exact mapM_map_ok _ _ _ (fun x => by cases x; simp [%s] <;> (try split) <;> simp_all) vs\n\n",
+				name, pt, name, enc.name, pt, name, enc.name, ss)
+		default:
+			// fields of the pilosa struct, named, optional ones split
+			sd := resolveStruct("P", pt)
+			var fnames, optCases []string
+			for _, f := range sd.fields {
+				fn := "f_" + f.name
+				fnames = append(fnames, fn)
+				if strings.HasPrefix(leanType(f.typ), "(Option") && f.typ.kind == "ptr" {
+					optCases = append(optCases, fn)
+				}
+			}
+			// the decoder argument built from the encoder result
+			encArg := "v"
+			if strings.HasPrefix(leanType(enc.sig.params[0].typ), "(Option") {
+				encArg = "(some v)"
+			}
+			encRes, _ := leanResult(enc)
+			decArg := "(" + enc.name + " " + encArg + ")"
+			if !strings.HasPrefix(encRes, "(Option") && strings.HasPrefix(leanType(fi.sig.params[0].typ), "(Option") {
+				decArg = "(some " + decArg + ")"
+			}
+			target := ""
+			mBinder := ""
+			if fi.inout >= 0 {
+				all := true
+				asg := assignedFields(fd, fi.sig.params[fi.inout].name)
+				for _, f := range sd.fields {
+					if !asg[f.name] {
+						all = false
+					}
+				}
+				if all {
+					target = " m"
+					mBinder = " (m : P." + pt + ")"
+				} else {
+					target = " ({} : P." + pt + ")"
+				}
+			}
+			casesLine := "  cases v with\n  | mk " + strings.Join(fnames, " ") + " =>\n"
+			if len(fnames) == 0 {
+				casesLine = "  cases v\n"
+			}
+			body := "    simp [" + ss + "]"
+			if len(optCases) > 0 {
+				body = "    cases " + strings.Join(optCases, " <;> cases ") + " <;> simp [" + ss + "]"
+			}
+			if len(fnames) == 0 {
+				body = "  simp [" + ss + "]"
+			}
+			fmt.Fprintf(sb, "theorem rt_%s (v : P.%s)%s : %s %s%s = .ok (canon_%s true v) := by\n%s%s\n\n",
+				name, pt, mBinder, name, decArg, target, pt, casesLine, body)
+			if enc.guarded && strings.HasPrefix(leanType(enc.sig.params[0].typ), "(Option") && fi.inout >= 0 {
+				// the nil case of a guarded encoder: nothing is decoded
+				fmt.Fprintf(sb, "theorem rt_%s_none (m : P.%s) : %s (%s none) m = .ok m := by\n  simp [%s, %s]\n\n",
+					name, pt, name, enc.name, name, enc.name)
+				ti.rt += " rt_" + name + "_none"
+			}
+		}
+	}
 }
